@@ -1220,7 +1220,7 @@ def relations_case(rng):
             c["wkind"] = rng.choice(["none", "none", "scalar"])
             if c["wkind"] == "scalar":
                 c["w"], c["wvalid"], c["whidden"] = rng.choice(W_POOL[2:]), True, "nan"
-            rel["kinds"] = [rng.choice(["count", "count", "mean", "sum", "valid_count"]) for _ in range(5)]
+            rel["kinds"] = [rng.choice(["count", "count", "count", "mean", "sum", "valid_count"]) for _ in range(5)]
     if sc == "shared-fact":
         rel["kinds"][0] = "mean"            # an unweighted index-cube mean first (it must not touch the caller's NaN markers)
         rel["cubes"][0] = "c"
@@ -1331,7 +1331,7 @@ def run_relations(S, c, fmt):
             cu["x"] = catii.xcube(xarrs, interacting_shape=tuple(cur["exts"]))
         nd = len(cur["exts"])
         for step in range(5):
-            op = "none" if step == 0 else srng.choice(["append", "append", "update", "setitem", "shift_common", "shift_common()"])
+            op = "none" if step == 0 else srng.choice(["append", "append", "update", "setitem", "shift_common", "shift_common()"] + (["append"] * 4 if step == 1 else []))
             d = srng.randrange(nd)
             e = cur["exts"][d]
             N = cur["N"]
@@ -1609,7 +1609,9 @@ def run_big(S, p, formats):
             if p["kind"] == "valid_count" and fmt[0] == "plain":
                 want_vals, wmiss = value, numpy.zeros_like(missing)
             else:
-                want_vals, wmiss = numpy.where(missing, float(fmt[1]) if fmt[0] != "nan" else 0.0, value), missing
+                # the replacement as the output array can hold it (an integer region truncates a sentinel such as 2.5)
+                repl = 0.0 if fmt[0] == "nan" else float(numpy.asarray(fmt[1]).astype(numpy.asarray(out[0] if fmt[0] == "pair" else out).dtype))
+                want_vals, wmiss = numpy.where(missing, repl, value), missing
             if gmiss is not None and not numpy.array_equal(gmiss, wmiss):
                 u, k = (int(x) for x in numpy.argwhere(gmiss != wmiss)[0])
                 bad = "cell %d col %d: %s, expected %s (missing cells differ in %d places)" % (u, k, "missing" if gmiss[u, k] else "value %r" % got[u, k],
